@@ -28,6 +28,8 @@ TEXT = {
 }
 built = sorted(f[:-3].upper() for f in os.listdir(f"{V}/checks") if f.startswith("c") and f[1:3].isdigit() and f.endswith(".py"))
 na_reasons = json.load(open(f"{V}/tools/not_applicable.json")) if os.path.exists(f"{V}/tools/not_applicable.json") else {}
+# thorough commands are registered only for checks whose thorough tier was run to completion, silently, on the current tree
+thorough_ok = set(json.load(open(f"{V}/tools/thorough_ok.json"))) if os.path.exists(f"{V}/tools/thorough_ok.json") else set()
 checks = []
 for pid in built:
     if pid in na_reasons:
@@ -36,7 +38,7 @@ for pid in built:
     checks.append({
         "property_id": pid,
         "quick_cmd": f"./check {pid} --tier quick",
-        "thorough_cmd": f"./check {pid} --tier thorough",
+        **({"thorough_cmd": f"./check {pid} --tier thorough"} if pid in thorough_ok else {}),
         "evidence_file": f"/verif/evidence/{pid}.json",
         "replay_cmd_template": f"./check {pid} --replay {{path}}",
         "engine": "mc",
